@@ -95,7 +95,7 @@ def combine(*fs):
 FULL = runner.ALL_KEYS
 
 CONFIG = {
-    "C01": dict(profile=dict(p_repeat_opt=0.5, p_required=0.03, p_bad_value=0.03, p_ev_unknown=0.02, p_ev_garbage=0.01, p_group=0.45, p_namespace=0.7,
+    "C01": dict(profile=dict(p_addoption=0.08, p_repeat_opt=0.5, p_required=0.03, p_bad_value=0.03, p_ev_unknown=0.02, p_ev_garbage=0.01, p_group=0.45, p_namespace=0.7,
                              p_commands=0.5, n_events=(1, 9), p_untagged=0.2, p_init=0.3, p_mutate_argv=0.03),
                 keys=["panic", "err", "vals", "calls", "attached"], transform=t_err_type_only, theorems="C01_*"),
     "C02": dict(profile=dict(p_required=0.02, p_mb_short=0.25, p_quoted=0.3, p_bad_value=0.05, p_commands=0.2, p_ev_unknown=0.02, p_ev_garbage=0.01),
@@ -103,14 +103,14 @@ CONFIG = {
     "C03": dict(profile=dict(p_required=0.02, p_passdd=0.7, p_passafter=0.4, p_ignore=0.4, p_ev_plain=0.3, p_ev_term=0.1, p_ev_unknown=0.12,
                              p_positional=0.5, p_bad_value=0.02, p_handler=0.05, n_events=(1, 10)),
                 keys=["panic", "err", "ret", "vals", "exec"], transform=t_err_type_only, oracle=oracle_c03, theorems="C03_*"),
-    "C04": dict(profile=dict(p_ev_garbage=0.25, p_ev_unknown=0.15, p_mutate_argv=0.5, p_bad_value=0.25, p_mb_short=0.2, p_print=0.6, n_events=(0, 8)),
+    "C04": dict(profile=dict(p_ev_garbage=0.25, p_ev_unknown=0.15, p_mutate_argv=0.5, p_bad_value=0.25, p_mb_short=0.2, p_print=0.6, n_events=(0, 8), p_addoption=0.12),
                 keys=["panic", "err", "out"], transform=common.hide_help, oracle=oracle_c04, theorems="C04_*"),
-    "C05": dict(profile=dict(p_default=0.5, p_env=0.5, p_init=0.5, p_env_set=0.9, p_required=0.02, p_ev_opt=0.4, n_events=(0, 4), p_bad_value=0.03,
+    "C05": dict(profile=dict(p_addoption=0.08, p_default=0.5, p_env=0.5, p_init=0.5, p_env_set=0.9, p_required=0.02, p_ev_opt=0.4, n_events=(0, 4), p_bad_value=0.03,
                              p_group=0.6, p_envns=0.7, p_ev_unknown=0.01, p_ev_garbage=0.0, p_mutate_argv=0.0, p_bad_default=0.02,
                              types=[("bool", 6), ("int", 8), ("uint8", 3), ("float64", 3), ("string", 12), ("duration", 2), ("custom", 3),
                                     ("ptr", 6), ("slice", 18), ("map", 14), ("func", 3)]),
                 keys=["panic", "err", "vals"], transform=t_err_type_only, theorems="C05_*"),
-    "C06": dict(profile=dict(p_required=0.45, p_positional=0.6, p_pos_required=0.7, p_commands=0.6, p_bad_value=0.01, p_ev_unknown=0.01, p_ev_garbage=0.0,
+    "C06": dict(profile=dict(p_addoption=0.08, p_required=0.45, p_positional=0.6, p_pos_required=0.7, p_commands=0.6, p_bad_value=0.01, p_ev_unknown=0.01, p_ev_garbage=0.0,
                              p_default=0.1, n_events=(0, 7), p_mutate_argv=0.02),
                 keys=["panic", "err", "exec"], transform=common.hide_help, oracle=oracle_c09, theorems="C06_*"),
     "C07": dict(profile=dict(p_ev_unknown=0.3, p_wrong_scope=0.3, p_ignore=0.35, p_handler=0.45, p_required=0.02, p_commands=0.6, p_bad_value=0.02,
@@ -119,7 +119,7 @@ CONFIG = {
     "C08": dict(profile=dict(p_commands=0.95, max_depth=3, p_alias=0.6, p_subopt=0.4, p_ev_cmd=0.35, p_required=0.02, p_bad_value=0.02,
                              p_ev_unknown=0.03, n_events=(1, 9), p_positional=0.15, p_sibling_cmd=0.25),
                 keys=["panic", "err", "active", "vals", "ret"], transform=common.hide_help, theorems="C08_*", n_quick=250),
-    "C09": dict(profile=dict(p_commands=0.95, p_exec=0.9, p_cmdhandler=0.5, p_exec_err=0.3, p_ev_cmd=0.3, p_required=0.15, p_bad_value=0.1,
+    "C09": dict(profile=dict(p_addoption=0.08, p_commands=0.95, p_exec=0.9, p_cmdhandler=0.5, p_exec_err=0.3, p_ev_cmd=0.3, p_required=0.15, p_bad_value=0.1,
                              p_ev_unknown=0.08, p_help=0.7, n_events=(1, 8)),
                 keys=["panic", "err", "exec", "ret"], transform=common.hide_help, oracle=oracle_c09, theorems="C09_*", n_quick=400),
     "C10": dict(profile=dict(p_positional=0.95, n_pos=(1, 4), p_ev_plain=0.4, p_ev_term=0.08, p_passdd=0.8, p_required=0.02, p_commands=0.4,
@@ -128,7 +128,7 @@ CONFIG = {
     "C11": dict(profile=dict(p_bad_value=0.35, p_base=0.4, p_choice=0.3, p_required=0.01, p_commands=0.15, p_ev_unknown=0.01, p_ev_garbage=0.0,
                              p_ev_opt=0.85, n_events=(1, 5), p_mutate_argv=0.0, p_quoted=0.03,
                              types=[("bool", 3), ("int", 8), ("int8", 8), ("int16", 5), ("int32", 5), ("int64", 6), ("uint", 5), ("uint8", 8), ("uint16", 4),
-                                    ("uint32", 4), ("uint64", 6), ("float32", 5), ("float64", 5), ("string", 3), ("duration", 4), ("custom", 4),
+                                    ("uint32", 4), ("uint64", 6), ("float32", 9), ("float64", 5), ("string", 3), ("duration", 4), ("custom", 4),
                                     ("ptr", 8), ("slice", 8), ("map", 8), ("func", 3)]),
                 keys=["panic", "err", "vals", "calls"], transform=common.hide_help, theorems="C11_*"),
     "C20": dict(profile=dict(p_commands=1.0, p_tagcmd=0.6, n_cmds=(1, 4), p_cmd_hidden=0.3, p_subopt=0.05, p_ev_cmd=0.1, p_ev_plain=0.4, p_required=0.0,
